@@ -498,9 +498,9 @@ let csum lens =
   hn (codec_sum (if lens = "-" then [] else List.map nh (String.split_on_char ',' lens)))
 
 (* a sequence of reads (r<k>) and skips (s<k>) on a one-shot reader *)
-let c13_seq data reqs =
+let c13_seq data reqs scope =
   let bs = bytes_of_hex data in
-  let (st0, d0) = new_reader bs (n_of_int (List.length bs)) in
+  let (st0, d0) = new_reader bs (nh scope) in
   let st = ref st0 and d = ref d0 in
   let out = ref [] in
   let ok = ref true in
@@ -545,7 +545,7 @@ let dispatch set_cfg cur_h cur_zh (op : string) (args : string list) : string =
   | "encdec", [t; v] -> encdec t v
   | "decraw", [t; data] -> decraw t data
   | "csum", [lens] -> csum lens
-  | "c13s", [data; reqs] -> c13_seq data reqs
+  | "c13s", [data; reqs; scope] -> c13_seq data reqs scope
   | "dynu", [text] -> dynu text
   | "bstr", [bs] -> hb (bytes_string (bytes_of_hex bs))
   | "c13p", [data; chunks; eof; fail; reqs] -> c13_prim data chunks eof fail reqs
